@@ -311,8 +311,7 @@ Variable all : list frame_spec.
 Variable ip0 : Z.
 
 Hypothesis Ha : arch_ok a.
-Hypothesis Hskip : a_scan_skip a = 0.
-Hypothesis Htrunc : a_trunc a = false.
+Hypothesis Hskip : 0 <= scan_skip_words a /\ a_scan_skip a = a_pw a * scan_skip_words a.
 (* no call frame information for any frame of this thread *)
 Hypothesis Hnocfi : forall c g f, cfi_walk c g f = None.
 Hypothesis Hwf : scan_wf_layout a instr_valid base all = true.
@@ -326,11 +325,11 @@ Notation walkf := (walk current_code p a os mem module_at max_module_addr cfi_wa
 Lemma s_pw_cases : (a_bits a = 32 /\ a_pw a = 4) \/ (a_bits a = 64 /\ a_pw a = 8).
 Proof. destruct Ha as [H _]. exact H. Qed.
 
-Lemma scan_gaps_cons : forall win f t, scan_gaps_ok a instr_valid win (f :: t) = true ->
-  0 <= fs_gap f < win /\ a_cutoff a <= fs_ra f < 2 ^ a_bits a /\ instr_ok a instr_valid (fs_ra f) = true /\
-  scan_gaps_ok a instr_valid (a_scan_default a) t = true.
+Lemma scan_gaps_cons : forall lo win f t, scan_gaps_ok a instr_valid lo win (f :: t) = true ->
+  (lo <= fs_gap f /\ fs_gap f - lo < win) /\ a_cutoff a <= fs_ra f < 2 ^ a_bits a /\ instr_ok a instr_valid (fs_ra f) = true /\
+  scan_gaps_ok a instr_valid (scan_skip_words a) (a_scan_default a) t = true.
 Proof.
-  intros win f t H. cbn [scan_gaps_ok] in H.
+  intros lo win f t H. cbn [scan_gaps_ok] in H.
   apply andb_prop in H. destruct H as [H H7]. apply andb_prop in H. destruct H as [H H6].
   apply andb_prop in H. destruct H as [H H5]. apply andb_prop in H. destruct H as [H H4].
   apply andb_prop in H. destruct H as [H H3]. apply andb_prop in H. destruct H as [H1 H2].
@@ -338,27 +337,28 @@ Proof.
   unfold instr_ok. rewrite H5, H6. repeat split; auto.
 Qed.
 
-Lemma scan_gaps_app : forall l1 l2 win, scan_gaps_ok a instr_valid win (l1 ++ l2) = true ->
-  exists win', scan_gaps_ok a instr_valid win' l2 = true /\ (l1 = [] -> win' = win) /\ (l1 <> [] -> win' = a_scan_default a).
+Lemma scan_gaps_app : forall l1 l2 lo win, scan_gaps_ok a instr_valid lo win (l1 ++ l2) = true ->
+  exists lo' win', scan_gaps_ok a instr_valid lo' win' l2 = true.
 Proof.
-  induction l1 as [|f t IH]; intros l2 win H.
-  - exists win. split; [exact H|]. split; [reflexivity|intros E; contradiction].
-  - cbn [app] in H. apply scan_gaps_cons in H. destruct H as [_ [_ [_ H]]].
-    destruct (IH l2 _ H) as [w [H1 [H2 H3]]]. exists w. split; [exact H1|]. split; [discriminate|].
-    intros _. destruct t; [apply H2; reflexivity | apply H3; discriminate].
+  induction l1 as [|f t IH]; intros l2 lo win H.
+  - exists lo, win. exact H.
+  - cbn [app] in H. apply scan_gaps_cons in H. destruct H as [_ [_ [_ H]]]. exact (IH l2 _ _ H).
 Qed.
 
-Lemma scan_total_nonneg : forall win l, scan_gaps_ok a instr_valid win l = true -> 0 <= total_words l 0.
+Lemma skip_nonneg : 0 <= scan_skip_words a.
+Proof. destruct Hskip as [H _]. exact H. Qed.
+
+Lemma scan_total_nonneg : forall lo win l, 0 <= lo -> scan_gaps_ok a instr_valid lo win l = true -> 0 <= total_words l 0.
 Proof.
-  intros win l; revert win. induction l as [|f t IH]; intros win H; [cbn; lia|].
-  apply scan_gaps_cons in H. destruct H as [H1 [_ [_ H4]]]. specialize (IH _ H4). cbn [total_words]. lia.
+  intros lo win l; revert lo win. induction l as [|f t IH]; intros lo win Hlo H; [cbn; lia|].
+  apply scan_gaps_cons in H. destruct H as [[H1 _] [_ [_ H4]]]. specialize (IH _ _ skip_nonneg H4). cbn [total_words]. lia.
 Qed.
 
-Lemma scan_words_length : forall win l, scan_gaps_ok a instr_valid win l = true ->
+Lemma scan_words_length : forall lo win l, 0 <= lo -> scan_gaps_ok a instr_valid lo win l = true ->
   Z.of_nat (length (scan_words l)) = total_words l 0.
 Proof.
-  intros win l; revert win. induction l as [|f t IH]; intros win H; [reflexivity|].
-  apply scan_gaps_cons in H. destruct H as [H1 [_ [_ H4]]]. specialize (IH _ H4).
+  intros lo win l; revert lo win. induction l as [|f t IH]; intros lo win Hlo H; [reflexivity|].
+  apply scan_gaps_cons in H. destruct H as [[H1 _] [_ [_ H4]]]. specialize (IH _ _ skip_nonneg H4).
   cbn [scan_words total_words]. rewrite app_length. cbn [length]. unfold zeros. rewrite repeat_length. lia.
 Qed.
 
@@ -455,7 +455,7 @@ Proof.
 Qed.
 End OneRecord.
 
-Lemma wf_parts : scan_gaps_ok a instr_valid (a_scan_context a) all = true /\ instr_ok a instr_valid 0 = false /\
+Lemma wf_parts : scan_gaps_ok a instr_valid 0 (a_scan_context a) all = true /\ instr_ok a instr_valid 0 = false /\
   0 < base /\ base + a_pw a * total_words all 0 < 2 ^ a_bits a.
 Proof.
   assert (H := Hwf). unfold scan_wf_layout in H.
@@ -467,7 +467,14 @@ Qed.
 
 Lemma mem_len_all : mem_len mem = a_pw a * total_words all 0.
 Proof.
-  destruct wf_parts as [Hg _]. rewrite (mem_len_words a s_pw_cases). rewrite (scan_words_length _ _ Hg). reflexivity.
+  destruct wf_parts as [Hg _]. rewrite (mem_len_words a s_pw_cases). rewrite (scan_words_length _ _ _ (Z.le_refl 0) Hg). reflexivity.
+Qed.
+
+Lemma view_id : forall x, 0 <= x < 2 ^ a_bits a -> view a x = x.
+Proof.
+  intros x Hx. unfold view. destruct (a_trunc a) eqn:E; [|reflexivity].
+  destruct Ha as [_ [_ [Ht _]]]. rewrite (Ht E) in Hx. unfold wrap32, two32.
+  change (2 ^ 32) with 4294967296 in Hx. apply Z.mod_small. exact Hx.
 Qed.
 
 Lemma scan_chain_walk : forall fs done callee gc fuel,
@@ -475,14 +482,15 @@ Lemma scan_chain_walk : forall fs done callee gc fuel,
   Z.of_nat (length (scan_words done)) = total_words done 0 ->
   r_sp (f_regs callee) = base + a_pw a * total_words done 0 ->
   f_valid callee = plain_valid a ->
-  scan_gaps_ok a instr_valid (if is_context (f_trust callee) then a_scan_context a else a_scan_default a) fs = true ->
+  scan_gaps_ok a instr_valid (if is_context (f_trust callee) then 0 else scan_skip_words a)
+               (if is_context (f_trust callee) then a_scan_context a else a_scan_default a) fs = true ->
   (is_context (f_trust callee) = true -> fs <> []) ->
   (length fs < fuel)%nat ->
   walkf fuel callee gc = Ret (scan_chain a base (total_words done 0) fs).
 Proof.
   pose proof (pw_pos a s_pw_cases) as Hp.
   destruct wf_parts as [Hgall [Hjunk [Hb0 Htop]]].
-  pose proof mem_len_all as Hml.
+  pose proof mem_len_all as Hml. pose proof skip_nonneg as Hsk0. destruct Hskip as [_ Hskeq].
   induction fs as [|f t IH]; intros done callee gc fuel Hall Hld Hsp Hv Hg Hctx Hfuel;
     (destruct fuel as [|k]; [cbn in Hfuel; lia|]); cbn [walk].
   - assert (Enc : is_context (f_trust callee) = false).
@@ -492,8 +500,10 @@ Proof.
     { unfold sp_in_stack. destruct (read mem 1 (r_sp (f_regs callee))) eqn:R; [|reflexivity].
       apply read_some in R. rewrite app_nil_r in Hall. subst done. rewrite Hml in R. cbn [m_base mk_mem] in R. lia. }
     rewrite Es. reflexivity.
-  - apply scan_gaps_cons in Hg. destruct Hg as [[Hg0 Hgw] [[Hr1 Hr2] [Hok Hgt]]].
-    pose proof (scan_total_nonneg _ _ Hgt) as Ht0.
+  - set (lo := if is_context (f_trust callee) then 0 else scan_skip_words a) in *.
+    assert (Hlo0 : 0 <= lo) by (unfold lo; destruct (is_context (f_trust callee)); lia).
+    apply scan_gaps_cons in Hg. destruct Hg as [[Hg0 Hgw] [[Hr1 Hr2] [Hok Hgt]]].
+    pose proof (scan_total_nonneg _ _ _ Hsk0 Hgt) as Ht0.
     assert (Htot : total_words all 0 = total_words done 0 + (fs_gap f + 1 + 0 + total_words t 0)).
     { rewrite Hall, total_words_app. reflexivity. }
     assert (Hd0 : 0 <= total_words done 0) by lia.
@@ -506,21 +516,37 @@ Proof.
     set (sp' := base + a_pw a * (total_words done 0 + fs_gap f + 1)).
     pose proof Ha as Ha'. destruct Ha' as [_ [_ [_ [_ [_ [_ [_ [_ [_ [Hadj Hle]]]]]]]]]].
     assert (Hra0 : 0 <= fs_ra f) by lia.
-    assert (Hws : scan_words all = scan_words done ++ repeat 0 (Z.to_nat (fs_gap f)) ++ fs_ra f :: scan_words t).
-    { rewrite Hall, scan_words_app. reflexivity. }
+    assert (HW : 0 < 2 ^ a_bits a) by (destruct s_pw_cases as [[-> _]|[-> _]]; cbn; lia).
+    (* the record, seen after skipping [lo] padding words *)
+    assert (Hws : scan_words all = (scan_words done ++ repeat 0 (Z.to_nat lo)) ++ repeat 0 (Z.to_nat (fs_gap f - lo)) ++ fs_ra f :: scan_words t).
+    { rewrite Hall, scan_words_app. cbn [scan_words]. unfold zeros.
+      replace (Z.to_nat (fs_gap f)) with (Z.to_nat lo + Z.to_nat (fs_gap f - lo))%nat by lia.
+      rewrite repeat_app, <- !app_assoc. reflexivity. }
+    assert (Hlen2 : Z.of_nat (length (scan_words done ++ repeat 0 (Z.to_nat lo))) = total_words done 0 + lo).
+    { rewrite app_length, repeat_length. lia. }
+    assert (F : forall n, (Z.to_nat (fs_gap f - lo) < n)%nat ->
+              scan_loop p a mem instr_valid n 0 (base + a_pw a * (total_words done 0 + lo)) None =
+              Ret (Some (ctx_regs (fs_ra f) sp' 0, [a_ip_name a; a_sp_name a]))).
+    { intros n Hn.
+      pose proof (scan_finds (scan_words done ++ repeat 0 (Z.to_nat lo)) (Z.to_nat (fs_gap f - lo)) (fs_ra f) (scan_words t)
+                             Hws (conj Hra0 Hr2) Hok Hjunk Hb0) as SF.
+      rewrite Hlen2 in SF. change 0 with (Z.of_nat 0) at 1.
+      rewrite (SF ltac:(rewrite Z2Nat.id by lia; rewrite Htot in Htop; nia) (Z.to_nat (fs_gap f - lo)) 0%nat n) by lia.
+      unfold sp'. rewrite Z2Nat.id by lia. do 4 f_equal. lia. }
+    assert (Hspr : 0 <= base + a_pw a * total_words done 0 < 2 ^ a_bits a) by (rewrite Htot in Htop; nia).
     assert (Escan : by_scan p a mem instr_valid callee = Ret (Some (ctx_regs (fs_ra f) sp' 0, [a_ip_name a; a_sp_name a]))).
-    { unfold by_scan. rewrite Hv, Hn_sp, Hn_fp. cbn [negb]. unfold view. rewrite Htrunc, Hsp, <- Hld.
-      assert (F : forall n, (Z.to_nat (fs_gap f) < n)%nat ->
-                scan_loop p a mem instr_valid n 0 (base + a_pw a * Z.of_nat (length (scan_words done))) None =
-                Ret (Some (ctx_regs (fs_ra f) sp' 0, [a_ip_name a; a_sp_name a]))).
-      { intros n Hn.
-        pose proof (scan_finds (scan_words done) (Z.to_nat (fs_gap f)) (fs_ra f) (scan_words t) Hws (conj Hra0 Hr2) Hok Hjunk Hb0) as SF.
-        change 0 with (Z.of_nat 0) at 1.
-        rewrite (SF ltac:(rewrite Hld, Z2Nat.id by lia; rewrite Htot in Htop; nia) (Z.to_nat (fs_gap f)) 0%nat n) by lia.
-        unfold sp'. rewrite Hld, Z2Nat.id by lia. reflexivity. }
-      destruct (is_context (f_trust callee)).
-      - apply F. lia.
-      - rewrite Hskip. cbn [Z.eqb]. apply F. lia. }
+    { unfold by_scan. rewrite Hv, Hn_sp, Hn_fp. cbn [negb]. rewrite Hsp, (view_id _ Hspr).
+      unfold lo in *. destruct (is_context (f_trust callee)).
+      - rewrite Z.add_0_r in F. apply F. lia.
+      - destruct (a_scan_skip a =? 0) eqn:E0.
+        + apply Z.eqb_eq in E0. assert (scan_skip_words a = 0) by nia.
+          replace (total_words done 0 + scan_skip_words a) with (total_words done 0) in F by lia. apply F. lia.
+        + unfold W. unfold checked_add. rewrite Hskeq.
+          destruct (base + a_pw a * total_words done 0 + a_pw a * scan_skip_words a <? 2 ^ a_bits a) eqn:E1;
+            [|apply Z.ltb_ge in E1; rewrite Htot in Htop; nia].
+          replace (base + a_pw a * total_words done 0 + a_pw a * scan_skip_words a)
+            with (base + a_pw a * (total_words done 0 + scan_skip_words a)) by lia.
+          apply F. lia. }
     unfold get_caller_frame, cascade. rewrite by_cfi_none, (by_fp_none callee Hv). cbn [obind]. rewrite Escan. unfold ctx_regs.
     cbn [obind from_context f_regs r_ip r_sp].
     destruct (fs_ra f <? a_cutoff a) eqn:E1; [apply Z.ltb_lt in E1; lia|].
@@ -559,7 +585,7 @@ Proof.
   - rewrite <- Eall in *.
     assert (Hok : mem_ok mem = true).
     { pose proof Hgall as G. rewrite Eall in G. apply scan_gaps_cons in G. destruct G as [[Hg0 _] [_ [_ Hgt]]].
-      pose proof (scan_total_nonneg _ _ Hgt) as Ht0.
+      pose proof (scan_total_nonneg _ _ _ skip_nonneg Hgt) as Ht0.
       assert (Htot : total_words all 0 = fs_gap f + 1 + 0 + total_words t 0) by (rewrite Eall; reflexivity).
       unfold mem_ok. rewrite Hml. cbn [m_base mk_mem].
       destruct (a_pw a * total_words all 0 =? 0) eqn:E; [apply Z.eqb_eq in E; nia|]. cbn [negb andb].
@@ -588,16 +614,17 @@ Qed.
 
 (* what the scan theorem needs of an architecture *)
 Definition scan_arch (a : arch) : Prop :=
-  arch_ok a /\ a_scan_skip a = 0 /\ a_trunc a = false /\
+  arch_ok a /\ (0 <= scan_skip_words a /\ a_scan_skip a = a_pw a * scan_skip_words a) /\
   reg_valid a (a_sp_name a) (plain_valid a) = true /\ reg_valid a (a_fp_name a) (plain_valid a) = false.
 Definition cfi_arch (a : arch) : Prop :=
   arch_ok a /\ In (a_cfi_sp_name a) (alias_group a (a_sp_name a)).
 
-Lemma scan_arch_x86 : scan_arch x86. Proof. split; [exact arch_ok_x86|repeat split; reflexivity]. Qed.
-Lemma scan_arch_amd64 : scan_arch amd64. Proof. split; [exact arch_ok_amd64|repeat split; reflexivity]. Qed.
-Lemma scan_arch_arm : scan_arch arm. Proof. split; [exact arch_ok_arm|repeat split; reflexivity]. Qed.
-Lemma scan_arch_arm64 : scan_arch arm64. Proof. split; [exact arch_ok_arm64|repeat split; reflexivity]. Qed.
-Lemma scan_arch_mips64 : scan_arch mips64. Proof. split; [exact arch_ok_mips64|repeat split; reflexivity]. Qed.
+Lemma scan_arch_x86 : scan_arch x86. Proof. split; [exact arch_ok_x86|repeat split; try reflexivity; discriminate]. Qed.
+Lemma scan_arch_amd64 : scan_arch amd64. Proof. split; [exact arch_ok_amd64|repeat split; try reflexivity; discriminate]. Qed.
+Lemma scan_arch_arm : scan_arch arm. Proof. split; [exact arch_ok_arm|repeat split; try reflexivity; discriminate]. Qed.
+Lemma scan_arch_arm64 : scan_arch arm64. Proof. split; [exact arch_ok_arm64|repeat split; try reflexivity; discriminate]. Qed.
+Lemma scan_arch_mips64 : scan_arch mips64. Proof. split; [exact arch_ok_mips64|repeat split; try reflexivity; discriminate]. Qed.
+Lemma scan_arch_mips32 : scan_arch mips32. Proof. split; [exact arch_ok_mips32|repeat split; try reflexivity; discriminate]. Qed.
 
 Lemma cfi_arch_x86 : cfi_arch x86. Proof. split; [exact arch_ok_x86|cbn; auto]. Qed.
 Lemma cfi_arch_amd64 : cfi_arch amd64. Proof. split; [exact arch_ok_amd64|cbn; auto]. Qed.
@@ -616,8 +643,8 @@ Theorem scan_recovers_gen :
     walk_stack current_code p a os mem module_at max_module_addr cfi_walk instr_valid fuel r v
     = Ret (from_context r v TContext :: scan_chain a base 0 fs).
 Proof.
-  intros p a os ma mm cw iv base fs ip0 fuel [Ha [Hs [Ht [H1 H2]]]] Hn Hwf Hf. cbn.
-  exact (scan_recovers p a os ma mm cw iv base fs ip0 Ha Hs Ht Hn Hwf H1 H2 fuel Hf).
+  intros p a os ma mm cw iv base fs ip0 fuel [Ha [Hs [H1 H2]]] Hn Hwf Hf. cbn.
+  exact (scan_recovers p a os ma mm cw iv base fs ip0 Ha Hs Hn Hwf H1 H2 fuel Hf).
 Qed.
 
 Theorem cfi_recovers_gen :
